@@ -11,9 +11,9 @@ import Kap.Proofs.C04Cache
 import Kap.Proofs.C04Trap
 import Kap.Proofs.C04Ref
 import Kap.Proofs.C04Point
+import Kap.Proofs.C04World
 import Kap.Gen.C04Sigs
 import Kap.Model.C04Legacy
-import Kap.Model.C04Lambda
 import Kap.Gen.C04
 namespace Kap.Props.C04
 open Kap.C04
@@ -66,7 +66,8 @@ theorem table_no_trap {F : Type} (ops : FOps F) (reMatch : Bytes → Bytes → O
 
 /-! ### The specialisation cache is transparent -/
 
-/-- **cache_transparent.** For every expression, scope, requested type, function state and EVERY cache
+/-- **cache_transparent.** For every expression (lambda nodes nested in it included), scope, requested type, function
+state (the functions handed to the evaluation AND those owned by the lambda nodes, `FnState.lams`) and EVERY cache
 satisfying `Inv` (nodes with a dynamic operand may hold arbitrary, stale types and an arbitrary or no
 function; nodes with constant operands hold the function chosen at construction), the evaluator `evalC`
 — which reads and writes the cache as the Go code does — returns the outcome and the function state of the
@@ -87,9 +88,12 @@ theorem reachable_cache_inv {F : Type} (ctx : Ctx F) (e : Expr F) (pre : List (P
 
 /-- **history_independent.** What a point answers through any entry path (`Eval`, `Type`+`EvalBool`, direct
 `EvalX`, `Type`) and the function state it leaves depend on the expression, the scope and the function
-state of its own group only: two arbitrary pre-histories of the SAME compiled expression — other field
-types, ill-typed points, other groups (`CopyReset` copies share the cache), other entry paths — give the same
-answer. No bound on the histories or on the expression. -/
+state `st` only: two arbitrary pre-histories of the SAME compiled expression — other field types, ill-typed
+points, other groups (`CopyReset` copies share the cache), other entry paths — give the same answer: the
+specialisation CACHE carries nothing from one evaluation to the next. No bound on the histories or on the
+expression. For an expression without lambda nodes `st` is the state of the asking group alone; the states of
+nested lambda nodes (`st.lams`) belong to the compiled expression and ARE shared between groups — that is the
+recorded finding, see `nested_lambda_state_shared` / `nested_lambda_partial` below. -/
 theorem history_independent {F : Type} (ctx : Ctx F) (e : Expr F)
     (pre₁ pre₂ : List (Path × Scope F × FnState F)) (p : Path) (σ : Scope F) (st : FnState F) :
     (runPath ctx σ p e (reach ctx e pre₁) st).1 = (runPath ctx σ p e (reach ctx e pre₂) st).1 ∧
@@ -157,7 +161,10 @@ values of the declared types: on EVERY point at which the expression is well typ
 `typeRef` (documented operator matrix, signatures; expression of any size, no missing-value literal — the
 language has none), the evaluator asked for that type returns exactly the outcome of the big-step reference
 semantics `valRef` — the value, or an error when evaluation faults (zero divisor, rejected library call) —
-and steps the stateful functions exactly as the reference's histories do (`StateRel` is preserved). -/
+and steps the stateful functions exactly as the reference's histories do (`StateRel` is preserved). Lambda nodes
+nested in the expression are covered: the body runs with the lambda node's own functions, which `StateRel` relates
+to the lambda's own history (`Hist.lams`) — for ONE evaluation context; who shares that state with whom is the
+subject of `nested_lambda_partial`. -/
 theorem agrees_with_reference {F : Type} (ctx : Ctx F) (htbl : ctx.tbl = Gen.table) (hsigs : ctx.sigs = Gen.sigs)
     (horacle : ∀ fn args v t, ctx.call fn args = some (.ok v) → sigType ctx fn (args.map Value.ty) = some t → v.ty = t)
     (σ : Scope F) (e : Expr F) (t : Ty) (st : FnState F) (h : Hist F)
@@ -304,30 +311,69 @@ theorem legacy_retry_never_terminates :
     let l := Leaf.negLit (.str [97]); let r := Leaf.lit (.str [98])
     out (direct Gen.table [] .eq l r (initCache Gen.table .eq l r) 0) = none := by decide
 
-/-! ### Recorded finding: the state of a nested lambda node is shared between groups -/
+/-! ### Recorded finding: the state of a nested lambda node is shared between groups
+
+`World` (Kap/Model/C04.lean) is what exists at run time for one compiled expression used by several groups: cache and
+lambda-node states once, `Funcs` per `CopyReset` copy. `refRun` gives every group its own histories. -/
+
+/-- a toy context (integers for floats) with the real table and signatures, for the decided witnesses. -/
+def toyCtx : Ctx Int :=
+  { ops := Legacy.toyOps, tbl := Gen.table, sigs := Gen.sigs, reMatch := fun _ _ => none, call := fun _ _ => none }
 
 /-- Counterexample (finding `nested-lambda-state-shared`, corpus/C04/finding-nested-lambda-state-shared.ops):
-`(lambda: count()) > 1` asked once by group 0 and once by group 1 — the node's single counter makes group 1's
-FIRST point see 2. -/
+`(lambda: count()) > 1` asked once by group 0 and once by group 1 through the predicate path, both points well typed:
+the lambda node's single counter makes group 1's FIRST point answer true; the reference answers false twice. So
+`nested_lambda_partial` is false without its hypothesis. -/
 theorem nested_lambda_state_shared :
-    Lam.runShared 1 [0, 1] 0 = [false, true] ∧ Lam.runPerGroup 1 [0, 1] [] = [false, false] := by decide
+    let e : Expr Int := .bin .gt (.lam 0 (.call0 "count")) (.lit (.int 1))
+    let qs : List (Question Int) := [(0, .pred, []), (1, .pred, [])]
+    noMissingLit e = true ∧ (∀ q ∈ qs, askable toyCtx e q = true) ∧ statefulLam e = true ∧
+    World.run toyCtx e (World.init toyCtx e) qs = [.ok (.bool false), .ok (.bool true)] ∧
+    refRun toyCtx e (fun _ => {}) qs = [.ok (.bool false), .ok (.bool false)] := by decide
 
-/-- `nested_lambda_partial`: with the excluding hypothesis of the finding — only ONE group ever asks — the nested
-lambda's counter is the group's own count, for every threshold and every number of points. (The full statement,
-without the hypothesis, is false: `nested_lambda_state_shared`.) -/
-theorem nested_lambda_partial (k : Int) (i : Nat) (ids : List Nat) (h : ∀ j ∈ ids, j = i) :
-    ∀ (n : Int) (cnts : List (Nat × Int)), Lam.count cnts i = n → Lam.runShared k ids n = Lam.runPerGroup k ids cnts := by
-  induction ids with
-  | nil => intro n cnts _; rfl
-  | cons j rest ih =>
-    intro n cnts hc
-    have hj : j = i := h j (List.mem_cons_self ..)
-    subst hj
-    simp only [Lam.runShared, Lam.runPerGroup, hc]
-    congr 1
-    exact ih (fun x hx => h x (List.mem_cons_of_mem _ hx)) (n + 1) _ (by simp [Lam.count])
+/-- **nested_lambda_partial** — agreement with the reference for SEVERAL groups sharing one compiled expression, lambda
+nodes included, with the recorded finding as the explicit exception. For the table and signatures as they are in the
+source now, any float arithmetic, regex matcher and type-respecting library oracle, any expression (lambda nodes
+nested to any depth), any sequence of questions (group, entry path, scope) at well-typed points asked of the freshly
+compiled expression and its `CopyReset` copies: the answers of the code's world — ONE cache and ONE state per lambda
+node shared by all copies — are exactly the reference answers, in which every group has its own histories, PROVIDED
+no nested lambda calls a stateful function (`statefulLam e = false`), or one group asks all the questions.
+Without the proviso the statement is false: `nested_lambda_state_shared`. -/
+theorem nested_lambda_partial {F : Type} (ctx : Ctx F) (htbl : ctx.tbl = Gen.table) (hsigs : ctx.sigs = Gen.sigs)
+    (horacle : ∀ fn args v t, ctx.call fn args = some (.ok v) → sigType ctx fn (args.map Value.ty) = some t → v.ty = t)
+    (e : Expr F) (hwf : noMissingLit e = true) (qs : List (Question F))
+    (hq : ∀ q ∈ qs, askable ctx e q = true)
+    (hx : statefulLam e = false ∨ ∃ g, ∀ q ∈ qs, q.1 = g) :
+    World.run ctx e (World.init ctx e) qs = refRun ctx e (fun _ => {}) qs := by
+  have hT : TblOK ctx.tbl := htbl ▸ gen_table_ok
+  have hF : FnOK ctx := ⟨fun s hs => List.all_eq_true.mp gen_sigs_ok s (hsigs ▸ hs), horacle⟩
+  rcases hx with hl | ⟨g, hg⟩
+  · exact world_stateless_lams ctx hT hF e hwf hl qs hq _ _ (compile_inv ctx e) (fun g => world_init_rel ctx e g)
+  · exact world_one_group ctx hT hF e hwf g qs hg hq _ _ (compile_inv ctx e) (world_init_rel ctx e g)
 
-/-- non-vacuity of `nested_lambda_partial`: three points of one group. -/
-example : Lam.runShared 1 [4, 4, 4] 0 = [false, true, true] ∧ (∀ j ∈ [4, 4, 4], j = 4) := by decide
+/-- non-vacuity of `nested_lambda_partial`, second disjunct: three points of ONE group against the stateful nested
+lambda of the finding — the lambda's counter is the group's own count … -/
+example :
+    let e : Expr Int := .bin .gt (.lam 0 (.call0 "count")) (.lit (.int 1))
+    let qs : List (Question Int) := [(4, .pred, []), (4, .eval, []), (4, .direct .bool, [])]
+    noMissingLit e = true ∧ (∀ q ∈ qs, askable toyCtx e q = true) ∧ (∀ q ∈ qs, q.1 = 4) ∧
+    World.run toyCtx e (World.init toyCtx e) qs = [.ok (.bool false), .ok (.bool true), .ok (.bool true)] := by decide
+
+/-- … first disjunct: a STATELESS nested lambda (`lambda: "a" * 2`) inside a stateful expression, two groups
+interleaved: each group counts its own points. -/
+example :
+    let e : Expr Int := .bin .gt (.bin .mult (.call0 "count") (.lam 0 (.bin .mult (.ref "a") (.lit (.int 2))))) (.lit (.int 15))
+    let σ : Scope Int := [("a", .int 5)]
+    let qs : List (Question Int) := [(0, .pred, σ), (1, .pred, σ), (0, .pred, σ), (1, .eval, σ)]
+    noMissingLit e = true ∧ (∀ q ∈ qs, askable toyCtx e q = true) ∧ statefulLam e = false ∧
+    refRun toyCtx e (fun _ => {}) qs = [.ok (.bool false), .ok (.bool false), .ok (.bool true), .ok (.bool true)] := by decide
+
+/-- the lambda node keeps its OWN functions, separate from the enclosing expression's (`count()` outside and inside
+count independently: 1·1, 2·2, 3·3), in the evaluator and in the reference alike. -/
+example :
+    let e : Expr Int := .bin .mult (.call0 "count") (.lam 7 (.call0 "count"))
+    let qs : List (Question Int) := [(0, .eval, []), (0, .eval, []), (0, .eval, [])]
+    World.run toyCtx e (World.init toyCtx e) qs = [.ok (.int 1), .ok (.int 4), .ok (.int 9)] ∧
+    refRun toyCtx e (fun _ => {}) qs = [.ok (.int 1), .ok (.int 4), .ok (.int 9)] := by decide
 
 end Kap.Props.C04
